@@ -58,6 +58,11 @@ structure St where
   lastBy : List (InstId × Nat)         -- Syncer.lastByInstance
   committed : List (InstId × Nat)      -- what the cleaner was told (SetCommitted)
   bgListed : Bool                      -- the receiver's own goroutine has done its first listing
+  /-- `storage_force_snapshot_interval`: the last snapshot is older than the force interval
+      (`forceSnapshotEnabled && time.Since(s.lastSnapshotTime) > forceSnapshotInterval`). Set only
+      from outside (`armForce`: the test harness turns the clock back); `go` only ever clears it
+      (after a successful store: `SendOnce` sets `s.lastSnapshotTime = time.Now()`). -/
+  forceArmed : Bool
   pc : Pc
   deriving Repr, DecidableEq
 
@@ -140,7 +145,11 @@ def goRaw (c : LoopCfg) (b : Bucket) (s : St) (i : In) : St × Bucket :=
     let s := if lc then s else { s with lastSynced := txnID }
     if lc ∧ nLoads > maxConsecutive then (afterLoads s, b) else (poll c b s i nLoads, b)
   | .beforeInfo =>
-    if s.env.lastTxn > s.lastSynced then
+    -- `info.LastTxnID > lastSyncedTxnID || snapshotOverdue`. The code computes `snapshotOverdue`
+    -- at the end of the loads (before the yield point `loop.beforeInfo`) and reads it here; the
+    -- harness arms only while the loop is at `top` or `sleep` (`armForce`), so the flag cannot
+    -- change between the two places and reading `s.forceArmed` here is the same thing.
+    if s.env.lastTxn > s.lastSynced ∨ s.forceArmed = true then
       if s.waiting.contains c.own then (afterSend c s, b)
       else
         let s := { s with lastSynced := s.env.lastTxn }
@@ -153,7 +162,10 @@ def goRaw (c : LoopCfg) (b : Bucket) (s : St) (i : In) : St × Bucket :=
     else if i.fails ≥ c.retryCount then ({ s with pc := .exited (.err "store") }, b)
     else ({ s with pc := .sendStored who txnID }, b ++ [{ inst := c.own, ts := ts, snap := snap }])
   | .sendStored who txnID =>
-    let s := { s with committed := s.lastBy.foldl (fun acc p => setAssoc acc p.1 p.2) s.committed }
+    -- the store succeeded: `s.lastSnapshotTime = time.Now()` (send.go, just before the yield point
+    -- `send.stored`; nothing arms between the store and this segment), so no snapshot is overdue
+    let s := { s with committed := s.lastBy.foldl (fun acc p => setAssoc acc p.1 p.2) s.committed,
+                      forceArmed := false }
     (sendReturned c s who txnID, b)
   | .sleep => ({ s with pc := .top }, b)
   | .exited _ => (s, b)
@@ -166,10 +178,17 @@ def go (c : LoopCfg) (b : Bucket) (s : St) (i : In) : St × Bucket :=
 
 def init (env : Env) : St :=
   { env := env, lastSynced := 0, hasDataAtStart := false, waiting := [], seen := [], lastBy := [],
-    committed := [], bgListed := false, pc := .boot }
+    committed := [], bgListed := false, forceArmed := false, pc := .boot }
 
 /-- the receiver listed the bucket (RunOnce): SeenInstances follows -/
 def listed (b : Bucket) (s : St) : St := { s with seen := instancesOf b }
+
+/-- the clock is turned back (or the force interval passes): from now on the last snapshot is
+    older than `storage_force_snapshot_interval`. The only way `forceArmed` becomes true; `syncLoop`
+    starts with `s.lastSnapshotTime = time.Now()` ("first not due to interval"), hence `init`
+    is not armed. (In receive-only mode `forceSnapshotEnabled` is false: the harness does not
+    arm a receive-only instance.) -/
+def armForce (s : St) : St := { s with forceArmed := true }
 
 /-- an application transaction commits while the loop is at a yield point -/
 def appCommit (s : St) (ops : List AppOp) : St :=
